@@ -442,6 +442,24 @@ struct MessageEncoder<Inner>(Inner);
 #[derive(Debug, Default, Clone, Copy)]
 struct MessageDecoder<Inner>(Inner);
 
+/// Allows a decoder to report whether it is part way through a frame.
+trait FrameBoundary {
+    /// True if the next bytes passed to the decoder will be interpreted as the start of a frame.
+    fn at_frame_boundary(&self) -> bool;
+}
+
+impl FrameBoundary for RawMapOperationDecoder {
+    fn at_frame_boundary(&self) -> bool {
+        true
+    }
+}
+
+impl<K: RecognizerReadable, V: RecognizerReadable> FrameBoundary for MapOperationDecoder<K, V> {
+    fn at_frame_boundary(&self) -> bool {
+        matches!(self.state, MapOperationDecoderState::ReadingHeader)
+    }
+}
+
 impl<K, V, Inner> Encoder<MapMessage<K, V>> for MessageEncoder<Inner>
 where
     Inner: Encoder<MapOperation<K, V>>,
@@ -476,7 +494,7 @@ where
 
 impl<K, V, Inner> Decoder for MessageDecoder<Inner>
 where
-    Inner: Decoder<Item = MapOperation<K, V>, Error = FrameIoError>,
+    Inner: Decoder<Item = MapOperation<K, V>, Error = FrameIoError> + FrameBoundary,
 {
     type Item = MapMessage<K, V>;
 
@@ -484,6 +502,12 @@ where
 
     fn decode(&mut self, src: &mut BytesMut) -> Result<Option<Self::Item>, Self::Error> {
         let MessageDecoder(inner) = self;
+        if !inner.at_frame_boundary() {
+            // The inner decoder has already consumed the header of an operation so the buffer
+            // holds the continuation of its body.
+            let result = inner.decode(src)?;
+            return Ok(result.map(Into::into));
+        }
         if src.remaining() < TAG_SIZE + LEN_SIZE {
             src.reserve(TAG_SIZE + LEN_SIZE);
             return Ok(None);
